@@ -620,7 +620,9 @@ func (e *evalEnv) eval(n *node) outcome {
 		}
 		ai, bi := int64(a), int64(b)
 		if bi == 0 {
-			return outcome{k: oExcluded} // C06 owns the crash
+			// a divisor whose integer part is zero (0, 0.5, -0.25): "modulo by
+			// zero comes back as an error value" - some error, never a value
+			return outcome{k: oAnyErr}
 		}
 		return val(float64(ai % bi))
 	case "and":
